@@ -165,7 +165,8 @@ def insert_loop_contracts(tk, loops):
             i = e + 1; continue
         if t == 'do' and tk[i + 1:i + 2] == ['{']:
             e = cxx2c.match_close(tk, i + 1)
-            stack.append((ordn, e)); ordn += 1
+            if ordn in loops: inserts[i] = loops[ordn]; used.add(ordn)     # do-while: the contract follows the `do` keyword
+            stack.append((-1, e)); ordn += 1
         i += 1
     if used != set(loops):
         raise Drift("loop contracts for ordinals %s could not be placed (found %d loops)" % (sorted(set(loops) - used), ordn))
